@@ -235,7 +235,7 @@ func runF(op string, in M) (M, M) {
 	curve := in["curve"].(string)
 	switch op {
 	case "slip10.master":
-		seed := vBytes(in["seed"])
+		seed := vBuf("slip10 seed", in["seed"]) // the caller's buffer, reused from call to call with other seeds
 		var c slip10.Curve
 		tc := &toyCurve{script: scriptOf(in)}
 		if curve == "toy" {
@@ -269,7 +269,7 @@ func runF(op string, in M) (M, M) {
 				opath = append(opath, uint32(e[1])|uint32(e[0])<<31)
 			}
 			var err error
-			parentObj, err = slip10.DeriveKeyFromPath(vBytes(in["obj_seed"]), realCurve(curve), opath)
+			parentObj, err = slip10.DeriveKeyFromPath(vBuf("slip10 seed", in["obj_seed"]), realCurve(curve), opath)
 			if err != nil {
 				panic("verif: object path does not derive")
 			}
@@ -318,6 +318,13 @@ func runF(op string, in M) (M, M) {
 		var e *slip10.ExtendedKey
 		var err error
 		p := vCatch(func() { e, err = parent.DeriveChild(index) })
+		if curve != "toy" && len(vIntList(in["prior"])) > 0 {
+			// ... and children derived afterwards must not disturb this one (it is read only now)
+			vCatch(func() { parent.DeriveChild((index ^ 1) | slip10.Hardened) })
+			if curve != "ed25519" && !usePub {
+				vCatch(func() { parent.DeriveChild((index ^ 1) &^ slip10.Hardened) })
+			}
+		}
 		out := extOut(e, err, p)
 		out["parent_unchanged"] = string(parent.ChainCode) == string(chain) && string(parent.Key.Bytes()) == string(parentKeyBytes)
 		out["calls"] = callsOut(tc)
@@ -340,7 +347,7 @@ func runF(op string, in M) (M, M) {
 		}
 		return out, facts
 	case "slip10.path":
-		seed := vBytes(in["seed"])
+		seed := vBuf("slip10 seed", in["seed"])
 		var path []uint32
 		for _, x := range in["path"].([]interface{}) {
 			e := vIntList(x)
@@ -396,6 +403,7 @@ func TestVerifDriver(t *testing.T) {
 		in = vNorm(in)
 		rec.i++
 		rec.count++
+		vPost(out)
 		b, err := json.Marshal(map[string]interface{}{"t": rec.t, "i": rec.i, "op": op, "in": in, "out": out, "facts": facts})
 		if err != nil {
 			panic(err)
